@@ -42,6 +42,13 @@ TEXT = {
          "(entry point x call style x offending class x position x kind x level x float type), the harness executes each case with panics caught as data, "
          "and TLC judges every recorded outcome: error variant in the allowed set, no panic outside the documented ones, no Ok with NaN bounds or low > high.",
          "TLC enumeration of the decision table + trace validation (fault enumeration over input classes)"),
+ "C02": ("proportion", "The Wilson / Wald bounds are specified as roots of polynomials over exact dyadic arithmetic in TLA+ (Proportion.tla) with z^2 ranging over a certified "
+         "reference enclosure; TLC enumerates every (n, k) of the bounded table x levels x kinds x methods x front-ends, the harness executes them, and TLC accepts a "
+         "bound only by a rigorous root enclosure (sign change within 2^-46), checks the outcome class against the documented domain and the front-ends bit-for-bit.",
+         "TLC exhaustive (n,k) table + trace validation with exact arithmetic in TLA+ (root enclosure of the score polynomial)"),
+ "C17": ("proportion", "The validator carries the recorded table of the current (n, level, method) and TLC evaluates the relational clauses between events: monotone in k, "
+         "mirror symmetry k <-> n-k with upper <-> lower, shrinking under multipliers, widening with the level, midpoint location; exhaustive over the bounded table.",
+         "TLC trace validation with carried state (relational clauses over pairs of recorded calls), exact arithmetic"),
 }
 PENDING_REASON = "check not built yet in this round (planned, see DESIGN.md section 4); not claimed"
 
@@ -86,6 +93,9 @@ def main():
             {"name": "totality", "path": "spec/Totality.tla spec/Gen_Totality.tla spec/Trace_Totality.tla harness/src/prod.rs",
              "serves_properties": ["C11"],
              "kind_free_text": "decision table input class -> allowed outcomes, generator and validator"},
+            {"name": "proportion", "path": "spec/Proportion.tla spec/RefTables.tla spec/MC_Tables.tla spec/Gen_Proportion.tla spec/Trace_Proportion.tla spec/tables tools/gen_tables.py",
+             "serves_properties": ["C02", "C17", "C12", "C03"],
+             "kind_free_text": "score-polynomial root enclosures over exact dyadic arithmetic; reference quantile tables with axioms; relational validator"},
             {"name": "interval", "path": "spec/Interval.tla spec/IntervalSession.tla spec/MC_Interval.tla spec/Gen_Interval.tla spec/Trace_Interval.tla",
              "serves_properties": ["C07", "C13", "C14", "C15", "C19"],
              "kind_free_text": "TLA+ value algebra of intervals as closed sets; TLC model check + generator + trace validator"},
